@@ -25,7 +25,12 @@ fn ints(s: &str) -> Vec<i64> {
 /// apply one command; returns the name of the API call (for signatures)
 fn apply(um: &mut UserModel, cmd: &str) -> &'static str {
     let (op, rest) = cmd.split_at(2.min(cmd.len()));
-    let a = ints(rest);
+    // a leading `S` stands for the index of the currently selected sheet
+    let rest = match rest.strip_prefix('S') {
+        Some(tail) => format!("{}{tail}", um.get_selected_sheet()),
+        None => rest.to_string(),
+    };
+    let a = ints(&rest);
     let g = |i: usize| a.get(i).copied().unwrap_or(0);
     match op {
         "ss" => { let _ = um.set_selected_sheet(g(0) as u32); "set_selected_sheet" }
@@ -44,7 +49,7 @@ fn apply(um: &mut UserModel, cmd: &str) -> &'static str {
         "mv" => { let _ = um.move_sheet(g(0) as u32, g(1) as u32); "move_sheet" }
         "un" => { let _ = um.undo(); "undo" }
         "re" => { let _ = um.redo(); "redo" }
-        // ---- oracle-only commands
+        // ---- navigation, scrolling, hidden rows / columns, typing
         "pd" => { let _ = um.on_page_down(); "on_page_down" }
         "pu" => { let _ = um.on_page_up(); "on_page_up" }
         "eL" => { let _ = um.on_navigate_to_edge_in_direction(NavigationDirection::Left); "on_navigate_to_edge_in_direction" }
@@ -58,9 +63,22 @@ fn apply(um: &mut UserModel, cmd: &str) -> &'static str {
         "tl" => { let _ = um.set_top_left_visible_cell(g(0) as i32, g(1) as i32); "set_top_left_visible_cell" }
         "ww" => { um.set_window_width(g(0) as f64); "set_window_width" }
         "wh" => { um.set_window_height(g(0) as f64); "set_window_height" }
-        "hr" => { let s = um.get_selected_sheet(); let _ = um.set_rows_hidden(s, g(0) as i32, g(1) as i32, g(2) != 0); "set_rows_hidden" }
-        "hc" => { let s = um.get_selected_sheet(); let _ = um.set_columns_hidden(s, g(0) as i32, g(1) as i32, g(2) != 0); "set_columns_hidden" }
-        "in" => { let s = um.get_selected_sheet(); let _ = um.set_user_input(s, g(0) as i32, g(1) as i32, "7"); "set_user_input" }
+        "hr" => { let _ = um.set_rows_hidden(g(0) as u32, g(1) as i32, g(2) as i32, g(3) != 0); "set_rows_hidden" }
+        "hc" => { let _ = um.set_columns_hidden(g(0) as u32, g(1) as i32, g(2) as i32, g(3) != 0); "set_columns_hidden" }
+        "in" => {
+            // typing into a hidden row also resizes it (outside the model): skipped on both sides
+            let hidden = um
+                .get_model()
+                .workbook
+                .worksheets
+                .get(g(0) as usize)
+                .map(|w| w.is_row_hidden(g(1) as i32).unwrap_or(false))
+                .unwrap_or(false);
+            if !hidden {
+                let _ = um.set_user_input(g(0) as u32, g(1) as i32, g(2) as i32, "7");
+            }
+            "set_user_input"
+        }
         _ => "unknown",
     }
 }
@@ -107,7 +125,7 @@ fn summary(um: &UserModel) -> String {
         .map(|p| if p.state == "visible" { '1' } else { '0' })
         .collect();
     let view = match wb.worksheets.get(sel).and_then(|w| w.views.get(&0)) {
-        Some(v) => format!("{},{},{},{},{},{}", v.row, v.column, v.range[0], v.range[1], v.range[2], v.range[3]),
+        Some(v) => format!("{},{},{},{},{},{}@{},{}", v.row, v.column, v.range[0], v.range[1], v.range[2], v.range[3], v.top_row, v.left_column),
         None => "-".to_string(),
     };
     // get_selected_view must agree with the workbook (it falls back to a default when the sheet is missing)
@@ -148,7 +166,7 @@ fn eval(req: &str) -> ImplOut {
                 // the public getters agree with the workbook
                 let v = um.get_selected_view();
                 if broken.is_empty() {
-                    let s = format!("{}/{},{},{},{},{},{}", v.sheet, v.row, v.column, v.range[0], v.range[1], v.range[2], v.range[3]);
+                    let s = format!("{}/{},{},{},{},{},{}@{},{}", v.sheet, v.row, v.column, v.range[0], v.range[1], v.range[2], v.range[3], v.top_row, v.left_column);
                     let st = states.last().unwrap();
                     let parts: Vec<&str> = st.split('/').collect();
                     if format!("{}/{}", parts[0], parts[3]) != s {
@@ -198,18 +216,38 @@ fn coord(rng: &mut Rng, last: i32, wild: bool) -> i64 {
     }
 }
 
+/// a coordinate near where things happen: the edges of the grid, recently used coordinates, small values
+fn near(rng: &mut Rng, last: i32, recent: &[i64]) -> i64 {
+    match rng.below(10) {
+        0 => 1,
+        1 => 2 + rng.below(3) as i64,
+        2 => last as i64,
+        3 => last as i64 - 1 - rng.below(4) as i64,
+        4 | 5 if !recent.is_empty() => (*rng.pick(recent) + rng.range(-2, 2)).clamp(1, last as i64),
+        _ => 1 + rng.below(14) as i64,
+    }
+}
+
 fn gen_history(rng: &mut Rng, len: usize, nav: bool) -> String {
-    // the generator tracks the number of sheets only approximately (enough to aim indices)
+    // the generator tracks the number of sheets only approximately (enough to aim indices), and
+    // remembers the coordinates it used so that hidden bands and scroll positions land near the selection
     let mut n: usize = 1;
     let mut cmds: Vec<String> = vec![];
+    let mut rows: Vec<i64> = vec![1];
+    let mut cols: Vec<i64> = vec![1];
     for _ in 0..len {
-        let k = rng.below(if nav { 30 } else { 22 });
+        let k = rng.below(if nav { 40 } else { 22 });
         let c = match k {
             0 | 1 => { let i = small_idx(rng, n); format!("ss{i}") }
-            2 | 3 => format!("sc{},{}", coord(rng, LAST_ROW, true), coord(rng, LAST_COLUMN, true)),
+            2 | 3 => {
+                let (r, c) = if nav { (near(rng, LAST_ROW, &rows), near(rng, LAST_COLUMN, &cols)) } else { (coord(rng, LAST_ROW, true), coord(rng, LAST_COLUMN, true)) };
+                rows.push(r); cols.push(c);
+                format!("sc{r},{c}")
+            }
             4 => {
                 // a range around the (unknown) selected cell: often the cell itself as one corner
                 let (r, c) = (coord(rng, LAST_ROW, false), coord(rng, LAST_COLUMN, false));
+                rows.push(r); cols.push(c);
                 let cmdc = format!("sc{r},{c}");
                 cmds.push(cmdc);
                 let (r2, c2) = (coord(rng, LAST_ROW, nav), coord(rng, LAST_COLUMN, nav));
@@ -219,7 +257,6 @@ fn gen_history(rng: &mut Rng, len: usize, nav: bool) -> String {
             6 => rng.pick(&["aR", "aL", "aU", "aD"]).to_string(),
             7 => rng.pick(&["aR", "aL", "aU", "aD"]).to_string(),
             8 => {
-                // in-grid, small targets for the modelled suite (beyond the grid the scrolling loops fail first)
                 if nav { format!("ar{},{}", coord(rng, 3000, true), coord(rng, 3000, true)) }
                 else { format!("ar{},{}", 1 + rng.below(40), 1 + rng.below(30)) }
             }
@@ -240,14 +277,46 @@ fn gen_history(rng: &mut Rng, len: usize, nav: bool) -> String {
                 "re".to_string()
             }
             21 => "re".to_string(),
-            22 => rng.pick(&["pd", "pu"]).to_string(),
-            23 => rng.pick(&["eL", "eR", "eU", "eD"]).to_string(),
-            24 => rng.pick(&["xL", "xR", "xU", "xD"]).to_string(),
-            25 => format!("tl{},{}", coord(rng, LAST_ROW, false), coord(rng, LAST_COLUMN, false)),
-            26 => if rng.chance(1, 2) { format!("ww{}", 100 + rng.below(2000)) } else { format!("wh{}", 50 + rng.below(1500)) },
-            27 => { let a = 1 + rng.below(8); format!("hr{},{},{}", a, a + rng.below(3), rng.below(3).min(1)) }
-            28 => { let a = 1 + rng.below(8); format!("hc{},{},{}", a, a + rng.below(3), rng.below(3).min(1)) }
-            _ => format!("in{},{}", 1 + rng.below(10), 1 + rng.below(10)),
+            22 | 23 => rng.pick(&["pd", "pu"]).to_string(),
+            24 | 25 => rng.pick(&["eL", "eR", "eU", "eD"]).to_string(),
+            26 | 27 | 28 => rng.pick(&["xL", "xR", "xU", "xD"]).to_string(),
+            29 => {
+                let (r, c) = if rng.chance(1, 6) { (coord(rng, LAST_ROW, true), coord(rng, LAST_COLUMN, true)) } else { (near(rng, LAST_ROW, &rows), near(rng, LAST_COLUMN, &cols)) };
+                format!("tl{r},{c}")
+            }
+            30 => {
+                // incl. exact multiples of the row height / column width (the `>` vs `>=` boundaries of the scroll tests)
+                let v = match rng.below(10) { 0 => 0, 1 => 1, 2 => 24 + rng.below(3) as i64, 3 => 89 + rng.below(3) as i64, 4 => -1, 5 => 50 + rng.below(200) as i64, 6 => 25 * (1 + rng.below(8) as i64), 7 => 90 * (1 + rng.below(5) as i64), _ => 100 + rng.below(2000) as i64 };
+                if rng.chance(1, 2) { format!("ww{v}") } else { format!("wh{v}") }
+            }
+            31 | 32 | 33 | 34 | 35 | 36 => {
+                // hide / unhide a band: at an edge of the grid (first / last rows), around a recent
+                // coordinate (so that everything up to the edge, or the selected cell itself, is hidden), or anywhere small
+                let rows_axis = rng.chance(1, 2);
+                let last = if rows_axis { LAST_ROW } else { LAST_COLUMN } as i64;
+                let recent = if rows_axis { &rows } else { &cols };
+                let (a, b) = match rng.below(8) {
+                    0 => (1, 1 + rng.below(5) as i64),
+                    1 => (last - rng.below(5) as i64, last),
+                    2 => (1, (*rng.pick(recent)).clamp(1, 12)),
+                    3 => { let x = (*rng.pick(recent)).clamp(1, last); (x, (x + rng.below(4) as i64).min(last)) }
+                    4 => { let x = (*rng.pick(recent)).clamp(1, last); ((x - rng.below(4) as i64).max(1), x) }
+                    5 => { let x = (*rng.pick(recent)).clamp(1, last); ((x + 1).min(last), last.min(x + 1 + rng.below(3) as i64)) }
+                    6 => (coord(rng, last as i32, true), coord(rng, last as i32, true)),
+                    _ => { let x = 1 + rng.below(10) as i64; (x, x + rng.below(4) as i64) }
+                };
+                // keep the band short: the engine hides row by row
+                let b = if b - a > 12 { a + 12 } else { b };
+                let sheet = if rng.chance(5, 6) { "S".to_string() } else { format!("{}", small_idx(rng, n)) };
+                let flag = if rng.chance(3, 4) { 1 } else { 0 };
+                format!("{}{sheet},{a},{b},{flag}", if rows_axis { "hr" } else { "hc" })
+            }
+            _ => {
+                let sheet = if rng.chance(5, 6) { "S".to_string() } else { format!("{}", small_idx(rng, n)) };
+                let (r, c) = (near(rng, LAST_ROW, &rows), near(rng, LAST_COLUMN, &cols));
+                rows.push(r); cols.push(c);
+                format!("in{sheet},{r},{c}")
+            }
         };
         // undo/redo change the sheet count behind the generator's back: re-synchronise loosely
         if c == "un" || c == "re" {
@@ -304,23 +373,65 @@ fn gen_hist(ctx: &Ctx, sink: &mut dyn FnMut(String)) {
     }
 }
 
-fn gen_nav(ctx: &Ctx, sink: &mut dyn FnMut(String)) {
-    for c in [
+fn nav_corpus() -> Vec<&'static str> {
+    vec![
+        // F28d / F28e (page up / down used to leave the grid)
         "tl5,1;sc2,1;pu",
         "sc30,1;tl1,1;wh100;pd;pd",
-        "sc5,5;ar0,0",
-        "sc5,5;ar-3,2;aU",
+        "wh100;tl1048570,1;sc1048576,1;pd",
         "tl1048570,1;sc1048576,1;pd",
-        "hc2,4,1;aR;aR;aL;xR;xR;xL",
-        "hr2,4,1;aD;aD;aU;xD;xU;eD;eU",
-        "in3,3;in3,7;eR;eR;eL;eD;eU",
-    ] {
+        "sc40,3;pd;pd;pu;pu;pu",
+        // F28b / F28c
+        "sc5,5;ar0,0",
+        "sc5,5;ar-3,2;aU;aR;tl1,1;aR",
+        "sc5,5;ar3000,3;ar2,3000;ar1048577,1;ar1,16385",
+        "ww200;wh100;sc2,2;ar30,30;ar3,3;ar40,2",
+        // hidden bands: first / last rows and columns, everything up to the edge, the selected cell itself
+        "hcS,2,4,1;aR;aR;aL;xR;xR;xL",
+        "hrS,2,4,1;aD;aD;aU;xD;xU;eD;eU",
+        "hrS,1,3,1;aU;aU;sc4,1;aU;xU;pu",
+        "hcS,1,3,1;aL;sc1,4;aL;xL;eL",
+        "hrS,1048574,1048576,1;sc1048573,1;aD;xD;eD;pd",
+        "hcS,16382,16384,1;sc1,16381;aR;xR;eR",
+        "sc5,5;hrS,5,5,1;aD;aU;hrS,1,4,1;aU;hrS,1,4,0;aU",
+        "sc1048576,16384;hrS,1048576,1048576,1;hcS,16384,16384,1;aL;aU",
+        "hrS,1,12,1;hrS,13,20,1;sc30,1;pu;pu;aU;aU",
+        "hrS,3,1,1;hrS,0,5,1;hrS,5,1048577,1;hc7,1,2,1;hcS,2,2,1;un;re;un",
+        "hrS,2,3,1;un;aD;re;aD;un;un",
+        "ns;hr0,2,3,1;ss0;aD;hcS,1,1,1",
+        // window sizes
+        "ww0;aR;aR;wh0;aD;aD;pd;pu",
+        "ww-1;wh-1;aR;aD;pd;ar3,3",
+        "ww90;wh25;aR;aR;aD;aD;eR;eD",
+        "wh24;pd;pd;pu;wh26;pd;pd;pu;pu",
+        // edge navigation over filled cells
+        "inS,3,3;inS,3,7;eR;eR;eR;eL;eL;eD;eU",
+        "inS,1,1;inS,1,2;inS,1,3;inS,1,5;eR;eR;eR;eL;eL;eL",
+        "inS,5,2;inS,6,2;inS,8,2;sc5,2;eD;eD;eD;eU;eU;eU;un;eD",
+        "sc1,1;eL;eU;eR;eD;eR;eD;eL;eU",
+        "ww300;inS,2,40;eR;eR;eL;wh100;inS,90,1;eD;eD;eU",
+        "hrS,4,6,1;inS,3,1;inS,7,1;sc3,1;eD;eU",
+        // range expansion
+        "sc5,5;xR;xR;xD;xD;xL;xL;xL;xU;xU;xU",
+        "sc1,1;xL;xU;sc1048576,16384;xR;xD;sc1048575,16383;xD;xR",
+        "sr1,1,1048576,1;xD;xU;xR;xR;xL;sc2,2;sr2,1,2,16384;xR;xD;xD;xU",
+        "ww100;wh60;sc2,2;xR;xR;xR;xD;xD;xD;tl9,9;xL;xL;xL;xL;xU;xU;xU;xU",
+        "sc5,5;ar0,0;xR;xL;xU;xD",
+        // window an exact multiple of the row height / column width
+        "wh100;xD;xD;xD;xD;xD;aD;aD;aD;aD;pd;pu",
+        "ww270;xR;xR;xR;xR;aR;aR;aR;aR;eR;eL",
+        "wh75;ww180;sc1,1;ar3,2;ar4,3;ar5,4;inS,9,9;eD;eR",
+    ]
+}
+
+fn gen_nav(ctx: &Ctx, sink: &mut dyn FnMut(String)) {
+    for c in nav_corpus() {
         sink(format!("c28 nav {c}"));
     }
     let mut rng = Rng::new(ctx.seed ^ 0xA28);
-    let n = if ctx.tier == Tier::Thorough { 30_000 } else { 1_000 };
+    let n = if ctx.tier == Tier::Thorough { 30_000 } else { 1_500 };
     for _ in 0..n {
-        let len = 2 + rng.below(20) as usize;
+        let len = 2 + rng.below(24) as usize;
         sink(format!("c28 nav {}", gen_history(&mut rng, len, true)));
     }
 }
@@ -329,7 +440,7 @@ pub fn suites() -> Vec<Suite> {
     vec![
         Suite {
             name: "c28-hist",
-            rule: "a regression corpus (F28a witness, undo/redo of sheet deletion/creation/duplication/move, hide/unhide, range edge cases) then random histories of 2..25 steps over set_selected_sheet/cell/range, the four arrow keys, on_area_selecting (in-grid targets), new/duplicate/delete/hide/unhide/move sheet (indices mostly valid, sometimes one past the end or beyond), undo, redo on a fresh real UserModel; after EVERY step: selected sheet, sheet count, visibility flags, selected sheet's (row, column, range) vs the Lean model; oracle = the invariant on the real workbook (selected < sheets, every sheet's cell in grid, range in grid, cell in range), the selection following the same sheet across move/delete, get_selected_view agreeing with the workbook; non-trivial = every history (distinct requests)",
+            rule: "a regression corpus (F28a witness, undo/redo of sheet deletion/creation/duplication/move, hide/unhide, range edge cases) then random histories of 2..25 steps over set_selected_sheet/cell/range, the four arrow keys, on_area_selecting (in-grid targets), new/duplicate/delete/hide/unhide/move sheet (indices mostly valid, sometimes one past the end or beyond), undo, redo on a fresh real UserModel; after EVERY step: selected sheet, sheet count, visibility flags, selected sheet's (row, column, range, top_row, left_column) vs the Lean model; oracle = the invariant on the real workbook (selected < sheets, every sheet's cell in grid, range in grid, cell in range), the selection following the same sheet across move/delete, get_selected_view agreeing with the workbook; non-trivial = every history (distinct requests)",
             modelled: true,
             gen: gen_hist,
             eval,
@@ -337,8 +448,8 @@ pub fn suites() -> Vec<Suite> {
         },
         Suite {
             name: "c28-nav",
-            rule: "oracle only: the same histories extended with page up/down, navigate-to-edge, keyboard range expansion, set_top_left_visible_cell, window sizes, hidden rows/columns, cell edits and unchecked on_area_selecting targets (0, negative, beyond the grid); the invariant is evaluated on the real workbook after every step",
-            modelled: false,
+            rule: "modelled: a corpus (page up/down at both ends of the grid, on_area_selecting with targets 0 / negative / beyond the grid, hidden bands at the first and last rows and columns, around and on the selected cell, everything hidden up to the edge, degenerate and out-of-grid bands, window sizes 0 / negative / one row / one column, edge navigation over filled cells, keyboard range expansion in all four directions incl. full-row / full-column ranges) then random histories of 2..25 steps over all c28-hist commands plus page up/down, navigate-to-edge, keyboard range expansion, set_top_left_visible_cell, window width/height, set_rows_hidden / set_columns_hidden (bands aimed at the grid edges and at recently used coordinates, on the selected or another sheet, hide and unhide), set_user_input; after EVERY step the selected sheet, sheet count, visibility flags and the selected sheet's (row, column, range, top_row, left_column) are compared with the Lean model; oracle as in c28-hist",
+            modelled: true,
             gen: gen_nav,
             eval,
             exhaustive: never,
